@@ -78,9 +78,13 @@ impl Round for Decimal {
                 }
             } else {
                 // shift back
-                Self {
-                    coeff: coeff * ten_pow(-n_frac_digits as u8),
-                    n_frac_digits: 0,
+                // Overflow must be signaled in all build profiles.
+                match coeff.checked_mul(ten_pow(-n_frac_digits as u8)) {
+                    Some(coeff) => Self {
+                        coeff,
+                        n_frac_digits: 0,
+                    },
+                    None => panic!("{}", DecimalError::InternalOverflow),
                 }
             }
         }
